@@ -116,7 +116,9 @@ class RobotsTxtChecker(object):
 
     def _read_content(self, response: Response, original_url_info: URLInfo):
         '''Read response and parse the contents into the pool.'''
-        data = response.body.read(4096)
+        # Rules past the first few KiB must not be dropped; 500 KiB is the
+        # limit commonly applied by crawlers
+        data = response.body.read(512000)
         url_info = original_url_info
 
         try:
